@@ -2,6 +2,7 @@
 
 from simkit.machines.crash import CrashMachine
 from simkit.machines.edits import EditsMachine
+from simkit.machines.fit import FitMachine
 from simkit.machines.mca import McaMachine
 from simkit.machines.scans import ScansMachine
 from simkit.machines.simtime import SimTimeMachine
@@ -15,4 +16,5 @@ REGISTRY = {
     "C15": SteadyMachine,
     "C18": McaMachine,
     "C19": CrashMachine,
+    "C20": FitMachine,
 }
